@@ -66,9 +66,9 @@ class RouteRefresh(Capability):
         return instance
 
     def __eq__(self, other: object) -> bool:
-        if not isinstance(other, RouteRefresh):
-            return False
-        return self.ID == other.ID
+        # the code it was announced under (2, or Cisco's 128) is how it renders, not what it is:
+        # ID used to be shared by every instance, so this comparison never told them apart
+        return isinstance(other, RouteRefresh)
 
     def __ne__(self, other: object) -> bool:
         return not self.__eq__(other)
